@@ -588,3 +588,26 @@ package constraint
 //@   props C03
 //@   nopanic
 //@   ensures result == c.schemaName
+
+// ---- C02: "regex as an RE2 search in the DECODED string", "date (YYYY-MM-DD)
+// and datetime (RFC 3339)" on the decoded string ----
+//@ func (Regex).Validate(value)
+//@   props C02 C18
+//@   requires c.re != nil && len(value) <= 1000000000000
+//@   maypanic
+//@   ensures panics <==> !reMatches(c.re, unqOf(value))
+//@   ensures panics ==> errWF(pv)
+
+//@ func (Date).Validate(value)
+//@   props C02
+//@   requires len(value) <= 1000000000000
+//@   maypanic
+//@   ensures exists s string :: spellsDecoded(s, value) && (panics <==> !timeParses("2006-01-02", s))
+//@   ensures panics ==> errWF(pv)
+
+//@ func (DateTime).Validate(value)
+//@   props C02
+//@   requires len(value) <= 1000000000000
+//@   maypanic
+//@   ensures exists s string :: spellsDecoded(s, value) && (panics <==> !timeParses("2006-01-02T15:04:05Z07:00", s))
+//@   ensures panics ==> errWF(pv)
